@@ -96,6 +96,12 @@ def run(ctx):
                         mcms = [s for s in spec["steps"] if s["t"] == "mcm"]
                         later_ps = any(mcms[j]["postselect"] is not None and j > min(idxs) for j in range(len(mcms)))
                     key = "finding:tree_traversal_mcm_stats_ignore_later_postselection" if later_ps else f"mcm:{method}:" + json.dumps([spec, mi])[:300]
+                    # known finding: tree-traversal returns NaN when, below some branch of an earlier measurement, the
+                    # postselected outcome of a later measurement has probability zero (both sub-branches are dropped, 0/0)
+                    if (method == "tree-traversal" and not later_ps and np.all(np.isnan(np.asarray(got, dtype=float)))
+                            and np.all(np.isfinite(np.asarray(exp, dtype=float)))
+                            and any(s_["t"] == "mcm" and s_["postselect"] is not None for s_ in spec["steps"])):
+                        key = "finding:tree_traversal_nan_zero_probability_postselected_branch"
                     ctx.violation(key, {"spec": spec, "method": method, "measurement": m, "device_result": got, "exact_branch_average": np.asarray(exp).tolist(), "err": err},
                                   what=f"{method} result of {m['k']} differs from the exact branch-averaged result")
         osr = c["results"].get("one-shot")
